@@ -11,7 +11,8 @@ DECIDES = ('(a) TransactionPacketGenerator has no unreachable state and every se
            '(b) address, endpoint number, retry flag and sequence number are latched only in the state that presents '
            'interface.ready, from the interface inputs, and the sending states read only those latched copies; '
            '(c) each sending state holds header valid and leaves only on header_source.ready, to the dispatch state, '
-           'raising done; (d) interface.ready is low in every state other than the dispatch state (exact evaluation of all its drivers). ')
+           'raising done; (d) interface.ready is low in every state other than the dispatch state (exact evaluation of all its drivers). '
+           'The latched copies are at least as wide as the header fields they fill (address 7, endpoint 4, retry 1, sequence 5 bits). ')
 NOT_DECIDED = 'behaviour when several requests are raised in the same cycle (priority is by statement order); the header queue downstream.'
 
 SPEC = {'ack': 1, 'nrdy': 2, 'erdy': 3, 'stall': 5}      # USB 3.2 table 8-12 (transaction packet subtypes)
